@@ -252,6 +252,9 @@ func genCase(r *prng.R, mode int) []string {
 			switch r.Intn(3) {
 			case 0:
 				rs[i].win = 0 // zero window: integer divide by zero in ensureWindowIsUpdated
+				// (its own name: a zero-window request is no limiter event, yet on a SHARED key it would be a
+				//  window-size change the judge cannot see)
+				rs[i].name = fmt.Sprintf("zero-window-%d", i)
 			case 1:
 				rs[i].alloc, rs[i].nohdr = true, true
 				rs[i].dflt, rs[i].dpct = "allow", "50/1"
@@ -529,12 +532,33 @@ func genDispatchCase(r *prng.R) []string {
 		rg := prng.Pick(r, dRetry)
 		return fmt.Sprintf("kind=retry attempts=%d cooldown=%d mult=2 lo=%d hi=%d", r.Range(0, 2), r.Range(0, 3), rg[0], rg[1])
 	}
+	// the other remedy kinds that can share a request-side chain with throttling, in every order (the list is
+	// shuffled below): authentication (o_auth => GenerateRequestAction; api_key / basic => ModifyRequestAction),
+	// account orchestration, fixed_response (answers when the request carries early-response: true), caching
+	others := []string{"kind=oauth", "kind=oauth", "kind=apikey", "kind=basic", "kind=acct"}
+	withCache := r.Chance(12)
 	for i, e := range eps {
 		t, win := throttle("")
 		pols = append(pols, pol{"e", e.url, e.method, fmt.Sprintf("throttle-%d", i), t, win})
 		if r.Chance(40) {
 			pols = append(pols, pol{"e", e.url, e.method, fmt.Sprintf("retry-%d", i), retry(), 0})
 		}
+		for j, n := 0, r.Intn(3); j < n; j++ {
+			pols = append(pols, pol{"e", e.url, e.method, fmt.Sprintf("aux-%d-%d", i, j), prng.Pick(r, others), 0})
+		}
+		if r.Chance(12) {
+			pols = append(pols, pol{"e", e.url, e.method, fmt.Sprintf("fixed-%d", i), fmt.Sprintf("kind=fixed status=%d", prng.Pick(r, []int{200, 418, 429})), 0})
+		}
+		if withCache && r.Chance(60) {
+			pols = append(pols, pol{"e", e.url, e.method, fmt.Sprintf("cache-%d", i),
+				fmt.Sprintf("kind=cache ttl=10000000 maxrec=%d", prng.Pick(r, []int{100000, 100000, 10})), 0})
+		}
+	}
+	if r.Chance(20) {
+		pols = append(pols, pol{"g", "", "", "aux-all", prng.Pick(r, others), 0})
+	}
+	if r.Chance(8) {
+		pols = append(pols, pol{"g", "", "", "fixed-all", "kind=fixed status=503", 0})
 	}
 	if r.Chance(15) {
 		t, win := throttle("")
@@ -578,6 +602,9 @@ func genDispatchCase(r *prng.R) []string {
 		l := fmt.Sprintf("dreq url=%s method=%s t=%d", proto.Enc(url), method, t)
 		if r.Chance(50) {
 			l += " h=X-Group&" + proto.Enc(prng.Pick(r, []string{"a", "b", "c", "A"}))
+		}
+		if r.Chance(12) {
+			l += " h=early-response&" + prng.Pick(r, []string{"true", "true", "false"})
 		}
 		ops = append(ops, l)
 	}
